@@ -7,8 +7,9 @@ import SecsModel.Props.C06
 #print axioms SecsModel.Props.C06.no_steal
 #print axioms SecsModel.Props.C06.once_in_order
 #print axioms SecsModel.Props.C06.single_connection
-#print axioms SecsModel.Props.C06.reconnect_patched
-#print axioms SecsModel.Props.C06.reconnect_in_order
+#print axioms SecsModel.Props.C06.fresh_link_framing
+#print axioms SecsModel.Props.C06.reconnect_patched_partial
+#print axioms SecsModel.Props.C06.reconnect_in_order_partial
 #print axioms SecsModel.Props.C06.witness_counter
 #print axioms SecsModel.Props.C06.witness_counter_lost_reply
 #print axioms SecsModel.Props.C06.witness_two_dispatchers
